@@ -147,6 +147,92 @@ def suite_fonts(ctx, res, n):
     res.sample({"suite": "fonts", "fea": fea[:800]})
 
 
+def build_fdselect_font(rng, n_glyphs, cff2=True):
+    """a CFF2 font whose glyphs are spread over TWO font dicts (FDSelect): every charstring calls local subroutine 0 of ITS OWN font dict (a small
+    box in one, a big box in the other) and adds a mark of its own, so that the outline drawn for a name depends on the font dict the name maps to"""
+    import io
+    from fontTools import ttLib
+    from fontTools.cffLib import FDSelect, SubrsIndex
+    from fontTools.fontBuilder import FontBuilder
+    from fontTools.misc.psCharStrings import T2CharString
+
+    names = [".notdef"] + [f"g{i:02d}" for i in range(n_glyphs)]
+    fd_of = {nm: (0 if i == 0 else rng.randrange(2)) for i, nm in enumerate(names)}
+    if len(set(fd_of.values())) < 2:
+        fd_of[names[-1]] = 1
+    fb = FontBuilder(1000, isTTF=False)
+    fb.setupGlyphOrder(list(names))
+    fb.setupCharacterMap({0xE000 + i: nm for i, nm in enumerate(names[1:])})
+    cs = {nm: T2CharString(program=[-107, "callsubr", 400 + 7 * i, 0, "rmoveto", 10 + i, 0, "rlineto", 0, 10 + 2 * i, "rlineto"]) for i, nm in enumerate(names)}
+    fb.setupCFF2(cs, fdArrayList=[{}, {}])
+    fb.setupHorizontalMetrics({nm: (500 + 10 * i, 0) for i, nm in enumerate(names)})
+    fb.setupHorizontalHeader(ascent=800, descent=-200)
+    fb.setupNameTable({"familyName": "FdSelect", "styleName": "Regular"})
+    fb.setupOS2()
+    fb.setupPost(keepGlyphNames=True)
+    td = fb.font["CFF2"].cff.topDictIndex[0]
+    for k, size in enumerate((100, 300)):
+        subrs = SubrsIndex()
+        subrs.append(T2CharString(program=[0, 0, "rmoveto", size, 0, "rlineto", 0, size, "rlineto", -size, 0, "rlineto"]))
+        td.FDArray[k].Private.Subrs = subrs
+    sel = FDSelect()
+    sel.format = 3
+    sel.gidArray = [fd_of[nm] for nm in names]
+    td.FDSelect = sel
+    buf = io.BytesIO()
+    fb.font.save(buf)
+    return ttLib.TTFont(io.BytesIO(buf.getvalue())), names
+
+
+def suite_fdselect(ctx, res, n):
+    """C11 on fonts with a glyph-id indexed table of their own kind: the FDSelect of a CFF2 font with two font dicts. After reorder + save + reload
+    every NAME keeps its outline (which depends on its font dict's subroutines), advance and cmap entry (`carry_keeps_entries`)."""
+    import io
+    from fontTools import ttLib
+    from fontTools.pens.recordingPen import RecordingPen
+    from nanoemoji.reorder_glyphs import reorder_glyphs
+    from nanoemoji.util import load_fully
+
+    def facts(font):
+        gs = font.getGlyphSet()
+        out = {}
+        for nm in font.getGlyphOrder():
+            pen = RecordingPen()
+            gs[nm].draw(pen)
+            out[nm] = (tuple(pen.value), font["hmtx"][nm][0])
+        return out, dict(font.getBestCmap())
+
+    for k in range(n):
+        try:
+            font, names = build_fdselect_font(ctx.rng, ctx.rng.randint(4, 9))
+        except Exception as e:  # noqa  (fontTools API drift: not nanoemoji's concern)
+            res.stat("fdselect:build-unavailable:" + type(e).__name__)
+            return
+        font = load_fully(font)
+        before = facts(font)
+        order = names[1:]
+        ctx.rng.shuffle(order)
+        order = [".notdef"] + order
+        res.count(key=("fdselect", tuple(order)), nontrivial=order != names)
+        try:
+            reorder_glyphs(font, order)
+            buf = io.BytesIO()
+            font.save(buf)
+            after_font = ttLib.TTFont(io.BytesIO(buf.getvalue()))
+            after = facts(after_font)
+        except Exception as e:  # noqa
+            res.add_cex("reorder_glyphs / save fails on a CFF2 font with two font dicts: " + type(e).__name__ + ": " + str(e)[:120], {"order": order},
+                        {"site": "c11-fdselect", "k": k})
+            continue
+        res.stat("fdselect:reordered")
+        if after_font.getGlyphOrder() != order:
+            res.add_cex("glyph order after reorder + reload is not the requested one", {"order": order, "got": after_font.getGlyphOrder()}, {"site": "c11-fdselect", "k": k})
+        elif after != before:
+            bad = [nm for nm in names if before[0][nm] != after[0].get(nm)]
+            res.add_cex(f"CFF2 font with two font dicts: after reorder_glyphs + save + reload the glyphs {bad} draw another outline / have another advance "
+                        "(FDSelect or charstrings not carried along with the names)", {"order": order, "changed": bad}, {"site": "c11-fdselect", "k": k})
+
+
 def run(ctx, res):
     nano.init()
     res.rule = ("sort: random coverages over random glyph orders with/without a parallel array (incl. None/empty); fonts: feaLib fonts from a "
@@ -154,11 +240,13 @@ def run(ctx, res):
                 "non-trivial = >= 3 covered glyphs with payload (sort), every font permutation")
     suite_sort(ctx, res, ctx.budget(1500, 30000))
     suite_fonts(ctx, res, ctx.budget(25, 600))
+    suite_fdselect(ctx, res, ctx.budget(6, 60))
 
 
 def search(ctx, res, broken):
     suite_sort(ctx, res, 20000)
     suite_fonts(ctx, res, 120)
+    suite_fdselect(ctx, res, 30)
 
 
 def replay(ctx, res, payload):
